@@ -20,7 +20,7 @@ import sys
 
 # ----------------------------------------------------------------------------
 # types
-Q, Z, B, S, TAIL, NONE = 'Q', 'Z', 'bool', 'str', 'tail', 'none'
+Q, Z, B, S, TAIL, NONE, ARR = 'Q', 'Z', 'bool', 'str', 'tail', 'none', 'arr'
 
 
 def T(*ts):
@@ -40,7 +40,8 @@ KP = T(Q, Q, Q, Q, Q)
 C6 = T(Z, Z, Z, Z, Z, Z)
 NAMED_TYPES = {'box': BOX, 'kp': KP, 'c6': C6, 'Q': Q, 'Z': Z, 'bool': B, 'str': S,
                'boxes': L(BOX), 'kps': L(KP), 'q3': T(Q, Q, Q), 'q6': BOX,
-               'optc6': OPT(C6), 'tail': TAIL}
+               'optc6': OPT(C6), 'tail': TAIL, 'arr': ARR, 'holes': L(C6),
+               'padw': T(T(Z, Z), T(Z, Z), T(Z, Z))}
 
 
 def parse_type(t):
@@ -68,6 +69,8 @@ def coq_type(t):
         return 'string'
     if t == TAIL:
         return 'unit'
+    if t == ARR:
+        return 'view'
     if t == NONE:
         return 'unit'
     if t[0] == 'tuple':
@@ -108,6 +111,8 @@ def targets_of(t):
         return s
     if isinstance(t, ast.Starred):
         return targets_of(t.value)
+    if isinstance(t, ast.Subscript) and isinstance(t.value, ast.Name):
+        return {t.value.id}       # img[...] = v  updates img
     return set()
 
 
@@ -327,8 +332,8 @@ class FnTranslator:
             if ty == L(None):
                 return Expr('[]', ty)
             return Expr(vname(node.id), ty, nz=node.id in self.nzvars)
-        if node.id in self.mod.get('_consts', {}):
-            return self.expr(self.mod['_consts'][node.id], {})
+        if node.id in self.consts() and not isinstance(self.consts()[node.id], ast.Dict):
+            return self.expr(self.consts()[node.id], {})
         if node.id in ('True', 'False'):
             return self.num_lit(node.id == 'True')
         raise TransError('unbound name %s at line %d' % (node.id, node.lineno))
@@ -355,6 +360,10 @@ class FnTranslator:
             if sp in self.spec.self_attrs:
                 return Expr('self_' + sp, self.spec.self_attrs[sp])
             raise TransError('attribute self.%s is not declared in the spec (line %d)' % (sp, node.lineno))
+        if node.attr == 'shape':
+            v = self.expr(node.value, env)
+            if v.ty == ARR:
+                return Expr('(vshape %s)' % v.code, T(Z, Z, Z), v.binds)
         if isinstance(node.value, ast.Name):
             base = node.value.id
             if base in ('math', 'np', 'numpy') and node.attr == 'pi':
@@ -482,6 +491,14 @@ class FnTranslator:
         if a.ty == B and b.ty == B and isinstance(op, (ast.Eq, ast.NotEq)):
             r = '(Bool.eqb %s %s)' % (a.code, b.code)
             return Expr(r if isinstance(op, ast.Eq) else '(negb %s)' % r, B)
+        if isinstance(a.ty, tuple) and a.ty[0] == 'tuple' and isinstance(b.ty, tuple) and b.ty[0] == 'tuple' \
+                and len(a.ty[1]) == len(b.ty[1]) and isinstance(op, (ast.Eq, ast.NotEq)):
+            na, nb = self.tuple_components(a), self.tuple_components(b)
+            parts = [self.cmp1(ast.Eq(), Expr(x, tx), Expr(y, ty_), lineno).code
+                     for x, tx, y, ty_ in zip(na, a.ty[1], nb, b.ty[1])]
+            r = "(let '(%s) := %s in let '(%s) := %s in (%s))" % (', '.join(na), a.code, ', '.join(nb), b.code,
+                                                               ' && '.join(parts))
+            return Expr(r if isinstance(op, ast.Eq) else '(negb %s)' % r, B)
         if a.ty in (Z, Q) and b.ty in (Z, Q):
             if a.ty == Z and b.ty == Z:
                 f = {ast.Eq: 'Z.eqb %s %s', ast.NotEq: 'negb (Z.eqb %s %s)', ast.Lt: 'Z.ltb %s %s',
@@ -603,9 +620,53 @@ class FnTranslator:
         names = [self.fresh('p') for _ in e.ty[1]]
         return names
 
+    def slice_opt(self, b, env):
+        if b is None:
+            return Expr('None', OPT(Z))
+        e = self.expr(b, env)
+        if e.ty != Z:
+            raise TransError('non-integer slice bound at line %d' % b.lineno)
+        return Expr('(Some %s)' % e.code, OPT(Z), e.binds)
+
+    def arr_slices(self, sl, env, lineno):
+        """-> (list of 3 (lo, hi) option exprs, list of reversed axes, binds)"""
+        elts = list(sl.elts) if isinstance(sl, ast.Tuple) else [sl]
+        elts = [e for e in elts if not (isinstance(e, ast.Constant) and e.value is Ellipsis)]
+        if len(elts) > 3:
+            raise TransError('more than three array subscripts at line %d' % lineno)
+        bounds, rev, binds = [], [], []
+        for a in range(3):
+            if a >= len(elts):
+                bounds.append(('None', 'None'))
+                continue
+            e = elts[a]
+            if not isinstance(e, ast.Slice):
+                raise TransError('integer array indexing at line %d' % lineno)
+            if e.step is not None:
+                if self.const_int(e.step) != -1 or e.lower is not None or e.upper is not None:
+                    raise TransError('unsupported slice step at line %d' % lineno)
+                rev.append(a)
+                bounds.append(('None', 'None'))
+                continue
+            lo, hi = self.slice_opt(e.lower, env), self.slice_opt(e.upper, env)
+            binds += lo.binds + hi.binds
+            bounds.append((lo.code, hi.code))
+        return bounds, rev, binds
+
     def e_Subscript(self, node, env):
+        if isinstance(node.value, ast.Name) and node.value.id not in env \
+                and isinstance(self.consts().get(node.value.id), ast.Dict):
+            return self.dict_lookup(self.consts()[node.value.id], node.slice, env, node.lineno)
         v = self.expr(node.value, env)
         sl = node.slice
+        if v.ty == ARR:
+            bounds, rev, binds = self.arr_slices(sl, env, node.lineno)
+            code = v.code
+            if any(b != ('None', 'None') for b in bounds):
+                code = '(v_slice3 %s %s)' % (' '.join('(%s, %s)' % b for b in bounds), code)
+            for a in rev:
+                code = '(v_rev %d %s)' % (a, code)
+            return Expr(code, ARR, v.binds + binds)
         if isinstance(v.ty, tuple) and v.ty[0] == 'tuple':
             n = len(v.ty[1])
             if isinstance(sl, ast.Slice):
@@ -632,6 +693,25 @@ class FnTranslator:
                         v.ty[1][idx], v.binds)
         raise TransError('subscript of %s at line %d' % (v.ty, node.lineno))
 
+    def consts(self):
+        d = dict(self.mod.get('_global_consts', {}))
+        d.update(self.mod.get('_consts', {}))
+        return d
+
+    def dict_lookup(self, dnode, key, env, lineno):
+        k = self.expr(key, env)
+        if k.ty != S:
+            raise TransError('dict lookup with non-string key at line %d' % lineno)
+        vals = [self.expr(v, env) for v in dnode.values]
+        keys = [self.expr(kk, env) for kk in dnode.keys]
+        if not vals or any(v.ty != vals[0].ty for v in vals):
+            raise TransError('heterogeneous dict at line %d' % lineno)
+        code = 'Raise KeyError'
+        for kk, vv in reversed(list(zip(keys, vals))):
+            code = '(if streq %s %s then Ok %s else %s)' % (k.code, kk.code, vv.code, code)
+        t = self.fresh('d')
+        return Expr(t, vals[0].ty, k.binds + [(t, code)])
+
     def const_int(self, node):
         if isinstance(node, ast.Constant) and isinstance(node.value, int):
             return node.value
@@ -647,6 +727,8 @@ class FnTranslator:
             fname = f.id
         elif isinstance(f, ast.Attribute) and isinstance(f.value, ast.Name):
             fname = f.value.id + '.' + f.attr
+        elif isinstance(f, ast.Attribute):
+            fname = '<expr>.' + f.attr
         else:
             raise TransError('unsupported call %s at line %d' % (ast.unparse(f), node.lineno))
         args = node.args
@@ -697,6 +779,52 @@ class FnTranslator:
                 return Expr('(box_map (fun c => clip c %s %s) %s)' % (lo.code, hi.code, x.code), BOX, binds)
         if fname == 'np.array' and len(args) == 1:
             return self.expr(args[0], env)
+        if fname in ('np.ascontiguousarray',) and len(args) == 1:
+            return self.expr(args[0], env)
+        if fname == 'np.rot90':
+            a = self.expr(args[0], env)
+            k = self.expr(args[1], env) if len(args) > 1 else self.num_lit(1)
+            ax = self.expr(args[2], env) if len(args) > 2 else None
+            for kw in node.keywords:
+                if kw.arg == 'k':
+                    k = self.expr(kw.value, env)
+                if kw.arg == 'axes':
+                    ax = self.expr(kw.value, env)
+            if a.ty != ARR or k.ty != Z or ax is None or ax.ty != T(Z, Z):
+                raise TransError('np.rot90 arguments at line %d' % node.lineno)
+            n1, n2 = self.fresh('a'), self.fresh('a')
+            return Expr("(let '(%s, %s) := %s in v_rot90 %s (Z.to_nat %s) (Z.to_nat %s) %s)"
+                        % (n1, n2, ax.code, k.code, n1, n2, a.code), ARR, a.binds + k.binds + ax.binds)
+        if fname == 'np.pad':
+            a = self.expr(args[0], env)
+            kws = {kw.arg: kw.value for kw in node.keywords}
+            pw = self.expr(kws['pad_width'] if 'pad_width' in kws else args[1], env)
+            mode = self.expr(kws['mode'], env) if 'mode' in kws else Expr('"constant"%string', S)
+            val = self.coerce(self.expr(kws['constant_values'], env), Q) if 'constant_values' in kws else Expr('0', Q)
+            if a.ty != ARR or pw.ty != T(T(Z, Z), T(Z, Z), T(Z, Z)) or mode.ty != S:
+                raise TransError('np.pad arguments at line %d' % node.lineno)
+            t = self.fresh('v')
+            return Expr(t, ARR, a.binds + pw.binds + mode.binds + val.binds +
+                        [(t, 'np_pad %s %s %s %s' % (a.code, pw.code, mode.code, val.code))])
+        if isinstance(f, ast.Attribute) and f.attr in ('copy', 'transpose') and not isinstance(f.value, ast.Name) is False:
+            base = self.expr(f.value, env)
+            if base.ty == ARR and f.attr == 'copy':
+                return base
+            if base.ty == ARR and f.attr == 'transpose':
+                perm = [self.const_int(x) for x in args]
+                if len(perm) == 4:
+                    if perm[3] != 3:
+                        raise TransError('transpose moves the channel axis at line %d' % node.lineno)
+                    perm = perm[:3]
+                if sorted(perm) != [0, 1, 2]:
+                    raise TransError('transpose permutation at line %d' % node.lineno)
+                return Expr('(v_transpose %d %d %d %s)' % (perm[0], perm[1], perm[2], base.code), ARR, base.binds)
+        if fname == '_maybe_process_by_channel' or fname == '_maybe_process_in_chunks':
+            raise TransError('closure constructor used outside an assignment at line %d' % node.lineno)
+        if isinstance(f, ast.Name) and isinstance(env.get(f.id), tuple) and env[f.id][0] == 'closure':
+            _, fn_node, kwnodes = env[f.id]
+            new = ast.Call(func=fn_node, args=list(args), keywords=list(kwnodes), lineno=node.lineno, col_offset=0)
+            return self.e_Call(new, env)
         if fname in ('np.any', 'np.all') and len(args) == 1:
             v = self.expr(args[0], env)
             if isinstance(v.ty, tuple) and v.ty[0] == 'tuple' and all(t == B for t in v.ty[1]):
@@ -712,6 +840,10 @@ class FnTranslator:
         if fname in ('math.degrees', 'np.rad2deg', 'np.degrees'):
             a = self.coerce(self.expr(args[0], env), Q)
             return Expr('(degrees %s)' % a.code, Q, a.binds)
+        if fname == 'len' and len(args) == 1 and isinstance(args[0], ast.Attribute) and args[0].attr == 'shape':
+            a0 = self.expr(args[0].value, env)
+            if a0.ty == ARR:
+                return self.num_lit(3)   # the channel axis is not modelled
         if fname == 'len' and len(args) == 1:
             a = self.expr(args[0], env)
             if isinstance(a.ty, tuple) and a.ty[0] == 'tuple':
@@ -915,6 +1047,24 @@ class FnTranslator:
             targets = st.targets if isinstance(st, ast.Assign) else [st.target]
             if len(targets) != 1:
                 raise TransError('chained assignment')
+            if isinstance(targets[0], ast.Name) and isinstance(st.value, ast.Call) \
+                    and isinstance(st.value.func, ast.Name) \
+                    and st.value.func.id in ('_maybe_process_by_channel', '_maybe_process_in_chunks'):
+                # process_fn applied per channel: on the 3-D model, the function itself with the given keywords
+                env2 = dict(env)
+                env2[targets[0].id] = ('closure', st.value.args[0], st.value.keywords)
+                return cont(env2)
+            if isinstance(targets[0], ast.Subscript):
+                base = self.expr(targets[0].value, env)
+                if base.ty != ARR or not isinstance(targets[0].value, ast.Name):
+                    raise TransError('subscript store on %s at line %d' % (base.ty, st.lineno))
+                bounds, rev, binds = self.arr_slices(targets[0].slice, env, st.lineno)
+                if rev:
+                    raise TransError('reversed slice store at line %d' % st.lineno)
+                val = self.coerce(self.expr(st.value, env), Q)
+                nm = targets[0].value.id
+                return self.with_binds(binds + val.binds, "(let %s := v_store3 %s %s %s in\n %s)" % (
+                    vname(nm), ' '.join('(%s, %s)' % b for b in bounds), val.code, vname(nm), cont(env)))
             if isinstance(targets[0], ast.Name) and self.self_path(st.value, env) is not None \
                     and self.self_path(st.value, env) not in self.spec.self_attrs:
                 env2 = dict(env)
@@ -1103,6 +1253,15 @@ class FnTranslator:
         return self.with_binds(binds, body)
 
     def fold_stmt(self, st, lst, rest, env, k):
+        if isinstance(st.target, (ast.Tuple, ast.List)):
+            # for a, b, c in xs:  ==  for elem in xs: a, b, c = elem
+            st = copy.copy(st)
+            tgt = st.target
+            nm = ast.Name(id='loop_elem_', ctx=ast.Store(), lineno=st.lineno, col_offset=0)
+            unpack = ast.Assign(targets=[tgt], value=ast.Name(id='loop_elem_', ctx=ast.Load(), lineno=st.lineno,
+                                                              col_offset=0), lineno=st.lineno, col_offset=0)
+            st.target = nm
+            st.body = [unpack] + list(st.body)
         if not isinstance(st.target, ast.Name):
             raise TransError('fold target at line %d' % st.lineno)
         state = sorted(v for v in may_assign(st.body) if v in env and not isinstance(env[v], Expr))
@@ -1251,7 +1410,9 @@ def decorator_names(node):
     return out
 
 
-IGNORED_DECORATORS = {'staticmethod', 'property', 'classmethod'}
+IGNORED_DECORATORS = {'staticmethod', 'property', 'classmethod',
+                      # act on the channel axis only, which the 3-D array model does not carry
+                      'preserve_channel_dim', 'preserve_shape'}
 
 
 def translate_all(repo, modules, out_dir):
@@ -1263,7 +1424,14 @@ def translate_all(repo, modules, out_dir):
     deco_src = os.path.join(repo, 'dicaugment/augmentations/utils.py')
     deco_tree = ast.parse(open(deco_src).read())
     deco_funcs = find_functions(deco_tree)
+    global_consts = {}
+    for n in deco_tree.body:
+        if isinstance(n, ast.Assign) and len(n.targets) == 1 and isinstance(n.targets[0], ast.Name) \
+                and isinstance(n.value, ast.Dict) and all(isinstance(k, ast.Constant) and isinstance(v, ast.Constant)
+                                                          for k, v in zip(n.value.keys, n.value.values)):
+            global_consts[n.targets[0].id] = n.value
     for m in modules:
+        m['_global_consts'] = global_consts
         src = open(os.path.join(repo, m['file'])).read()
         trees[m['file']] = (src, ast.parse(src))
     # pass 1: register specs, find nodes
@@ -1383,7 +1551,7 @@ def translate_all(repo, modules, out_dir):
     for m in modules:
         src, tree = trees[m['file']]
         lines = ['(* GENERATED by /verif/translator/py2coq.py from %s -- do not edit *)' % m['file'],
-                 'From DV.lib Require Import PyNum PyRt.']
+                 'From DV.lib Require Import PyNum PyRt.', 'From DV.model Require Import Arrays NpRt.']
         for r in m.get('requires', []):
             lines.append('From DV.gen Require Import %s.' % r)
         lines += ['Open Scope Q_scope.', '']
